@@ -217,6 +217,13 @@ func (s *Symbolizer) sym1(fr *frame, v ssa.Value) *Sym {
 		return &Sym{Op: "call", Name: "op" + x.Op.String(), Args: []*Sym{s.sym(fr, x.X)}}
 	case *ssa.Field:
 		st := x.X.Type().Underlying().(*types.Struct)
+		if base := s.sym(fr, x.X); base.Op == "structload" {
+			if al, ok := base.Val.(*ssa.Alloc); ok {
+				if v := s.fieldOfLocal(base.frame, al, x.Field); v != nil {
+					return v
+				}
+			}
+		}
 		return &Sym{Op: "field", Name: typeName(x.X.Type()) + "." + st.Field(x.Field).Name(), Args: []*Sym{s.sym(fr, x.X)}}
 	case *ssa.FieldAddr:
 		st := deref(x.X.Type()).Underlying().(*types.Struct)
@@ -347,6 +354,11 @@ func (s *Symbolizer) load(fr *frame, addr ssa.Value) *Sym {
 		}
 		return s.sym(fr, a)
 	case *ssa.Alloc:
+		if _, isStruct := deref(a.Type()).Underlying().(*types.Struct); isStruct {
+			if v := s.structLoad(fr, a); v != nil {
+				return v
+			}
+		}
 		return s.cell(fr, a, a.Parent())
 	case *ssa.FreeVar:
 		b := s.sym(fr, a)
@@ -728,6 +740,8 @@ func (y *Sym) String() string {
 		return "func:" + y.Name
 	case "alloc":
 		return "&" + y.Name
+	case "structload":
+		return "*&" + y.Name
 	case "cycle":
 		return "↺"
 	case "opaque":
@@ -858,8 +872,16 @@ func (s *Symbolizer) fieldOfLocal(fr *frame, al *ssa.Alloc, idx int) *Sym {
 			if !ok || fa.X != ssa.Value(al) || fa.Field != idx {
 				continue
 			}
-			if _, basic := st.Val.Type().Underlying().(*types.Basic); !basic {
-				return nil // only immutable scalar fields (strings, numbers) are looked through
+			switch ut := st.Val.Type().Underlying().(type) {
+			case *types.Basic:
+			case *types.Struct:
+				// a value type of another package (time.Time, ...): copied, never aliased
+				if nt, ok := st.Val.Type().(*types.Named); !ok || nt.Obj().Pkg() == nil || strings.HasPrefix(nt.Obj().Pkg().Path(), ModPath) {
+					return nil
+				}
+				_ = ut
+			default:
+				return nil // only immutable scalar fields (strings, numbers, foreign value structs) are looked through
 			}
 			n++
 			found = s.sym(of, st.Val)
@@ -867,6 +889,52 @@ func (s *Symbolizer) fieldOfLocal(fr *frame, al *ssa.Alloc, idx int) *Sym {
 	}
 	if n == 1 {
 		return found
+	}
+	if n == 0 {
+		// the local is a copy of another local struct (a struct passed by value): look the field up there
+		if src := s.structLoad(of, al); src != nil && src.Op == "structload" {
+			if al2, ok := src.Val.(*ssa.Alloc); ok && al2 != al {
+				return s.fieldOfLocal(src.frame, al2, idx)
+			}
+		}
+	}
+	return nil
+}
+
+// structLoad: the value of a local struct variable as a whole. A struct that is only ever written field by
+// field is denoted by itself ("structload" of its Alloc, remembering the frame); a local that is initialised
+// by exactly one whole-struct store of such a value (a by-value parameter spilled to the stack, a copy) denotes
+// the struct it was copied from. nil otherwise.
+func (s *Symbolizer) structLoad(fr *frame, al *ssa.Alloc) *Sym {
+	owner := al.Parent()
+	of := fr
+	for of != nil && of.fn != owner {
+		of = of.parent
+	}
+	if of == nil {
+		of = &frame{fn: owner}
+	}
+	var whole []*ssa.Store
+	for _, b := range owner.Blocks {
+		for _, in := range b.Instrs {
+			if st, ok := in.(*ssa.Store); ok && st.Addr == ssa.Value(al) {
+				whole = append(whole, st)
+			}
+		}
+	}
+	switch len(whole) {
+	case 0:
+		return &Sym{Op: "structload", Name: al.Comment, Val: al, frame: of, Fn: owner}
+	case 1:
+		key := fmt.Sprintf("structload/%p/%p", of, al)
+		if s.active[key] {
+			return nil
+		}
+		s.active[key] = true
+		defer delete(s.active, key)
+		if v := s.sym(of, whole[0].Val); v != nil && v.Op == "structload" {
+			return v
+		}
 	}
 	return nil
 }
@@ -890,6 +958,64 @@ func (s *Symbolizer) boundMethod(fr *frame, v ssa.Value) (*ssa.Function, *Sym) {
 		return nil, nil
 	}
 	return m, s.sym(fr, mc.Bindings[0])
+}
+
+// DeepAlts distributes choice phis (phis without a loop-carried argument) wherever they occur in the expression
+// - e.g. Path(φ(list | m[k])[i]) gives Path(list[i]) and Path(m[k][i]) - and returns the alternatives (at most
+// limit). Loop-carried phis (induction variables) are left in place.
+func (y *Sym) DeepAlts(limit int) []*Sym {
+	if y == nil {
+		return nil
+	}
+	if y.Op == "phi" {
+		carried := false
+		for _, a := range y.Args {
+			if a.Op == "cycle" {
+				carried = true
+			}
+		}
+		if !carried {
+			var out []*Sym
+			for _, a := range y.Args {
+				out = append(out, a.DeepAlts(limit)...)
+				if len(out) >= limit {
+					return out[:limit]
+				}
+			}
+			return out
+		}
+		return []*Sym{y}
+	}
+	if len(y.Args) == 0 {
+		return []*Sym{y}
+	}
+	outs := [][]*Sym{{}}
+	for _, a := range y.Args {
+		as := a.DeepAlts(limit)
+		if len(as) == 0 {
+			as = []*Sym{a}
+		}
+		var next [][]*Sym
+		for _, o := range outs {
+			for _, x := range as {
+				next = append(next, append(append([]*Sym{}, o...), x))
+				if len(next) >= limit {
+					break
+				}
+			}
+			if len(next) >= limit {
+				break
+			}
+		}
+		outs = next
+	}
+	var res []*Sym
+	for _, args := range outs {
+		c := *y
+		c.Args = args
+		res = append(res, &c)
+	}
+	return res
 }
 
 // Alts distributes phi nodes that occur at the top level or directly inside concatenations and returns the
